@@ -25,7 +25,7 @@ def lit(cls, ident, k):
         'M': 'm-%s' % base,
         'N': 'n-%s' % base,
         'L': 'long name of %s !' % base,
-        'U': 'éé%d' % (k % 10),        # 5 bytes, 3 chars
+        'U': 'Éé%d' % (k % 10),        # 5 bytes, 3 chars; an upper-case non-ASCII letter (Unicode lower-casing would change it)
         'A': 'ab%d%d' % (k % 10, k % 7),  # 4 bytes, 4 chars: fewer bytes than U although more chars
         'B': '{{esc %s}} }}{{' % base,    # escaped braces only: a fixed name, printed verbatim by every derive
     }[cls]
